@@ -113,7 +113,7 @@ def make_judges(ctx):
 def floors(tier):
     cells = [(op, wc) for op in ('add', 'sub', 'mul') for wc in ('both>=64', 'one>=64', 'both<64->>=64', 'both<64->54..63', 'mixed>2^53')]
     cells += [('store', r, o) for r in ('constructor', 'call', 'set_val', 'setitem') for o in ('saturate', 'wrap')]
-    cells += [('usable_after_store', t) for t in ('element', 'scalar')]
+    cells += [('usable_after_store', t) for t in ('element', 'scalar')] + [('operands-rewritten-in-place',), ('operands-with-another-n_word_max',)]
     return cells
 
 
@@ -204,6 +204,27 @@ def run_case(case, ctx):
                 _try(lambda: ys_(2 ** 90))
                 for f in (lambda: xs_ * ys_, lambda: xs_ + ys_, lambda: xs_ - ys_, lambda: xs_ * y, lambda: x + ys_, lambda: fm.mul(ys_, xs_)):
                     _try(f)
+        if rank:
+            # the same array operands used again after an in-place store (by index, through a view): the operation sees the codes they hold NOW
+            for step_ in range(2):
+                try:
+                    if step_ == 0:
+                        x[0] = Fxp(rng.choice([lox, hix, 1]), sx, wx, fx, raw=True)
+                    else:
+                        y[-1:][0] = Fxp(rng.choice([loy, hiy, 1]), sy, wy, fy, raw=True)
+                except Exception:
+                    break
+                for f in (lambda: x * y, lambda: x + y, lambda: fm.sub(x, y), lambda: np.multiply(y, x)):
+                    _try(f)
+            ctx.floor_hit(('operands-rewritten-in-place',))
+        # operands configured with another maximum for inferred words (the raw kernels do not depend on it)
+        if (i // 4) % 3 == 1 and wx < 64 and wy < 64:
+            xm_ = _try(lambda: Fxp(a, sx, wx, fx, raw=True, n_word_max=128))
+            ym_ = _try(lambda: Fxp(b, sy, wy, fy, raw=True, n_word_max=rng.choice([128, 32])))
+            if xm_ is not None and ym_ is not None:
+                for f in (lambda: xm_ * ym_, lambda: xm_ + ym_, lambda: xm_ - ym_, lambda: fm.mul(xm_, y), lambda: np.multiply(xm_, ym_)):
+                    _try(f)
+                ctx.floor_hit(('operands-with-another-n_word_max',))
         if rank:
             # elements obtained by indexing (their value is a NumPy scalar)
             for f in (lambda: x[1] * y[1], lambda: x[0] + y[1], lambda: x[1] - y[0], lambda: x[-1] * y, lambda: fm.mul(y[0], x[0])):
